@@ -964,6 +964,40 @@ def pubflags(rng, i):
     return {"kind": "pubflags", "cfg": {}, "steps": steps}
 
 
+def pressure(rng, i):
+    """Publishers that outrun the transport: tiny high/low water marks and handle queues, the transport
+    stalled or slow (small accepts with would-blocks), two channels publishing multi-frame messages
+    back to back from their own threads.  Every publish must still come out as its complete,
+    contiguous frame sequence, per channel in call order."""
+    fm = 4096
+    cfg = {"tune": [0, fm, 0], "high": rng.choice([0, 100, 3000, 20000]), "low": rng.choice([0, 50, 1000]),
+           "bound": rng.choice([1, 2, 4, 16])}
+    if rng.random() < 0.6:
+        cfg["write_cycle"] = [rng.choice([1, 7, 100, 2000, 5000, 0]) for _ in range(rng.randrange(1, 4))]
+        if not any(cfg["write_cycle"]):
+            cfg["write_cycle"].append(64)
+    steps, ids = opens(2, [1, 2])
+    steps.append(op("A", "qos"))
+    stall = rng.random() < 0.5
+    if stall:
+        steps.append({"do": "budget", "n": rng.choice([0, 10, 5000])})
+    pid = 40 * i
+    for h in ("A", "B"):
+        for _ in range(rng.randrange(3, 8)):
+            pid += 1
+            steps.append(dict(op(h, "publish", len=rng.choice([0, 10, 4088, 4089, 9000, 20000]), pid=pid,
+                                 mandatory=rng.random() < 0.3), **{"async": True}))
+    if stall:
+        steps.append({"do": "sleep", "ms": 20})
+        steps.append({"do": "budget", "n": None})
+    steps.append({"do": "wait", "who": "A"})
+    steps.append({"do": "wait", "who": "B"})
+    steps.append(op("A", "qos"))
+    steps.append(op("B", "qos"))
+    steps.append({"do": "closeconn"})
+    return {"kind": "pubflags-pressure", "cfg": cfg, "steps": steps}
+
+
 def hb_silence(rng, i):
     """Heartbeats negotiated (1 s); the server goes silent while a call is in flight and a consumer
     waits: everybody must be released by MissedServerHeartbeats within ~2 s."""
@@ -1120,7 +1154,7 @@ def batches(rng, maxlen, bases, reps=1):
     return res
 
 
-FAMILIES = {"midframe_close": midframe_close, "undrained": undrained, "connclose_cross": connclose_cross, "reply_then_close": reply_then_close, "chclose_cross": chclose_cross, "listener_split": listener_split, "mixed": mixed, "pubflags": pubflags, "backlog": backlog, "hb_silence": hb_silence, "listener_cross": listener_cross, "close_slow": close_slow, "consumer_drop": consumer_drop, "rpc": rpc, "content": content, "consumer": consumer, "listeners": listeners,
+FAMILIES = {"pressure": pressure, "midframe_close": midframe_close, "undrained": undrained, "connclose_cross": connclose_cross, "reply_then_close": reply_then_close, "chclose_cross": chclose_cross, "listener_split": listener_split, "mixed": mixed, "pubflags": pubflags, "backlog": backlog, "hb_silence": hb_silence, "listener_cross": listener_cross, "close_slow": close_slow, "consumer_drop": consumer_drop, "rpc": rpc, "content": content, "consumer": consumer, "listeners": listeners,
             "connclose": connclose, "chanclose": chanclose}
 
 
